@@ -139,6 +139,15 @@ Theorem C13_step_source : forall (C X : Type) (m : rs X -> list C -> rs X * bool
 Proof. exact consider_line_src_eq. Qed.
 Print Assumptions C13_step_source.
 
+(** ... in particular with the control fragment's matcher (stop, skip, advance, last, fail, push — Match/Ctl.v), which leaves the line monitor
+    alone (ctl_m_pln): the run-loop theorems C13_* about ctl_run are about the source's per-record step driving that matcher *)
+Theorem C13_ctl_step_source : forall (c : cfg) q_skip cs (s : rs mx) (l : list Z), q_scan c = false ->
+  consider_line_src Z mx (ctl_m c q_skip cs) (of_oz (from_line (scanner c))) (of_oz (to_line (scanner c))) (PBool (all_lines (scanner c)))
+    (PList (these (scanner c))) (of_oz (end_line c)) (cwnm c) true s l
+  = Some (fst (consider Z mx (ctl_m c q_skip cs) c s l), PBool (ev_returned (snd (consider Z mx (ctl_m c q_skip cs) c s l)))).
+Proof. intros c q_skip cs s l Hq. apply consider_line_src_eq; [|exact Hq]. intros s0 l0. apply ctl_m_pln. Qed.
+Print Assumptions C13_ctl_step_source.
+
 Example C13_nonvacuous :
   let prog := [CAct (APush 1); CWhen (EqLine 3) true AStop; CAct (APush 2)] in
   let o := ctl_run false false (mkSc [] None None true) prog [false; false; true; false; false] in
